@@ -94,7 +94,8 @@ def build_mir(crate, log=print):
 class Native:
     """the real code, natively compiled from /repo's working tree (replay + translator validation)"""
 
-    def __init__(self, profile='dev', log=print):
+    def __init__(self, profile='dev', log=print, crate='replay', binname='verif-replay'):
+        self.crate, self.binname = crate, binname
         self.profile = profile
         self.log = log
         self.proc = None
@@ -103,23 +104,23 @@ class Native:
 
     def build(self):
         t = time.time()
-        tdir = os.path.join(BUILD, 'replay' + SUFFIX)
+        tdir = os.path.join(BUILD, self.crate + SUFFIX)
         rel = '--release' if self.profile == 'release' else ''
         os.makedirs(BUILD, exist_ok=True)
-        lock = open(os.path.join(BUILD, f'.lock-replay-{self.profile}{SUFFIX}'), 'w')
+        lock = open(os.path.join(BUILD, f'.lock-{self.crate}-{self.profile}{SUFFIX}'), 'w')
         fcntl.flock(lock, fcntl.LOCK_EX)
         try:
-            src = f'{VERIF}/replay'
+            src = f'{VERIF}/{self.crate}'
             if SUFFIX:
-                src = os.path.join(BUILD, 'replay-src' + SUFFIX)
-                sh(f'rm -rf {src} && mkdir -p {src}/src && cp {VERIF}/replay/src/main.rs {src}/src/ && sed "s#/repo/#{REPO}/#g" {VERIF}/replay/Cargo.toml > {src}/Cargo.toml')
+                src = os.path.join(BUILD, self.crate + '-src' + SUFFIX)
+                sh(f'rm -rf {src} && mkdir -p {src}/src && cp {VERIF}/{self.crate}/src/main.rs {src}/src/ && sed "s#/repo/#{REPO}/#g" {VERIF}/{self.crate}/Cargo.toml > {src}/Cargo.toml')
             r = sh(f'cd {src} && cp {REPO}/Cargo.lock Cargo.lock && CARGO_NET_OFFLINE=true CARGO_TARGET_DIR={tdir} cargo build --offline {rel}')
         finally:
             fcntl.flock(lock, fcntl.LOCK_UN)
         if r.returncode != 0:
             raise MachineryError('replay binary does not build:\n' + r.stderr[-3000:])
         self.build_s = time.time() - t
-        self.bin = os.path.join(tdir, 'release' if self.profile == 'release' else 'debug', 'verif-replay')
+        self.bin = os.path.join(tdir, 'release' if self.profile == 'release' else 'debug', self.binname)
 
     def start(self):
         if self.proc is None:
@@ -204,6 +205,27 @@ I64_MIN, I64_MAX = -(1 << 63), (1 << 63) - 1
 
 
 # ------------------------------------------------------------------ obligations
+
+def is_nonlinear(f):
+    seen = set()
+    stack = [f]
+    while stack:
+        u = stack.pop()
+        if u.get_id() in seen:
+            continue
+        seen.add(u.get_id())
+        if z3.is_app(u):
+            k = u.decl().kind()
+            ch = u.children()
+            if k == z3.Z3_OP_MUL and sum(0 if z3.is_int_value(c) or z3.is_rational_value(c) else 1 for c in ch) >= 2:
+                return True
+            if k in (z3.Z3_OP_IDIV, z3.Z3_OP_MOD, z3.Z3_OP_DIV, z3.Z3_OP_REM) and len(ch) == 2 and not z3.is_int_value(ch[1]):
+                return True
+            stack.extend(ch)
+        elif z3.is_quantifier(u):
+            stack.append(u.body())
+    return False
+
 
 class Ob:
     def __init__(s, name, kind, status, detail='', answers=None, times=None, sample=None):
@@ -295,7 +317,15 @@ class Ctx:
             return None
         fs = list(formulas)
         if ex is not None:
-            fs = list(ex.invariants) + fs
+            inv = list(ex.invariants)
+            lin = [f for f in inv if not is_nonlinear(f)]
+            if expect == 'unsat' and len(lin) < len(inv):
+                # weakening the hypotheses is sound for an unsat verdict: try with the linear facts only first (much easier for the solvers)
+                v0 = self.solvers.check(lin + fs, quick_pass=True)
+                if v0.status == 'unsat':
+                    self.obs.append(Ob(name, kind, 'discharged', 'linear facts only', v0.answers, v0.times, sample))
+                    return v0
+            fs = inv + fs
         v = self.solvers.check(fs, witness=(expect == 'sat'))
         if expect == 'sat':
             if v.status == 'sat':
@@ -536,7 +566,7 @@ def run_kernel(ctx, K):
         names = [n for n, _ in K.inputs]
         tys = [ty for _, ty in K.inputs]
         samples = [dict(zip(names, smp)) if not isinstance(smp, dict) else smp for smp in (list(K.samples) + (K.samples_fn() if getattr(K, 'samples_fn', None) else []))]
-        bv = [boundary_values(ty) for ty in tys]
+        bv = [boundary_values(ty) for ty in tys] if K.gen is None else None
         nrand = 12 if ctx.tier == 'quick' else 60
         for _ in range(nrand):
             if K.gen is not None:
@@ -544,7 +574,7 @@ def run_kernel(ctx, K):
             else:
                 samples.append({n: (ctx.rand.choice(b) if (ty == 'bool' or ctx.rand.random() < 0.6) else ctx.rand.randint(*rng(ty)))
                                 for n, b, ty in zip(names, bv, tys)})
-        if len(tys) == 1:
+        if len(tys) == 1 and bv is not None:
             samples += [{names[0]: v} for v in bv[0]]
         nval = 0
         for conc in samples:
